@@ -196,6 +196,8 @@ def check_anchors(meta, body=False):
     for k, v in exp.items():
         if k.startswith("body:") != body:
             continue
+        if k == "refused_baseline":
+            continue      # not an anchor of the source text: the list of functions refused by the extractor on the verified baseline (vxrun.refused_baseline)
         if k == "serde_attrs":
             continue      # reported through serde_attrs_differ(): the safety net and the serde-dependent properties react, not the whole run
         got = meta["anchors"].get(k)
